@@ -215,6 +215,9 @@ MANIFEST_TEXT.update({
                "Partial: see assumptions; the translator is trusted to preserve lock/guard/call structure."),
     "C19": _mt("resp_tid_dst on every path, binding_truthful, allocate_truthful (with relay uniqueness), retransmit_idempotent, mismatch_437.",
                "DESIGN.md §6 C19", "Lean 4 theorems over all request paths + differential correspondence of every response"),
+    "C20": _mt("port_in_range over the REGENERATED uint16 expressions of both generator methods for all MinPort<=MaxPort (incl. 65535 and single-port ranges) and all Intn results, "
+               "model_matches_source, alloc_ok (bound port is free; requested port passed through), alloc_fail_clean (exactly MaxRetries attempts, nothing bound), no_shared_port over all allocate/close histories.",
+               "DESIGN.md §6 C20", "Lean 4 BitVec theorems over an expression regenerated from the Go AST + loop model with differential correspondence"),
 })
 
 # properties whose check is not built yet (kept current; emptied as checks land)
